@@ -11,7 +11,9 @@ The expected caller outcome follows from which of {d, T, c} comes first (strictl
 Equal instants are ties: only termination and "nothing left running" are judged there.
 
 Monitors: terminates (no quiescence/hang while the caller waits), outcome, outcome-time,
-function-cancelled, nothing-left-running, loop-clean (diagnostic only, never a violation).
+function-cancelled, nothing-left-running, cancel-honoured (a caller.cancel() that returned True - also one issued a
+few loop iterations after the deciding instant, i.e. after the outcome was set but before the caller woke up - always
+ends the caller with CancelledError), loop-clean (diagnostic only, never a violation).
 """
 
 from __future__ import annotations
@@ -37,7 +39,7 @@ ASSUMPTIONS = [
     "what reaches the loop exception handler is diagnostic only",
     "timeouts > 0",
 ]
-MINIMUMS = {"monitor:terminates": 2000, "monitor:outcome": 1500, "timeouts_fired": 300, "caller_cancels_delivered": 200, "function_ended_cancelled": 50}
+MINIMUMS = {"monitor:cancel-honoured": 1000, "cancel_requests_too_late": 100, "monitor:terminates": 2000, "monitor:outcome": 1500, "timeouts_fired": 300, "caller_cancels_delivered": 200, "function_ended_cancelled": 50}
 JOBS = {"quick": 4, "thorough": 8}
 LEVEL_TEXT = (
     "Every cell of the table durations {0,1,1.25,2} x outcomes {value, Exception, BaseException, self-cancel, ignores-first-cancel, cancelled-cleanup-raises} x "
@@ -123,7 +125,16 @@ def run_case(R: Recorder, case: dict[str, Any], verbose: bool = False) -> None:
 
         task = loop.create_task(caller())
         if c is not None:
-            loop.call_at(t0 + c, task.cancel)
+            def do_cancel(left: int) -> None:
+                # `c_iters` extra loop iterations after instant c: explores the window between "the outcome was decided"
+                # and "the caller woke up" at one and the same virtual instant
+                if left > 0:
+                    loop.call_soon(do_cancel, left - 1)
+                    return
+                got["cancel_accepted"] = task.cancel()
+                got["cancel_at"] = clock.now - t0
+
+            loop.call_at(t0 + c, do_cancel, case.get("c_iters", 0))
         await task
         got["caller_done"] = True
         await asyncio.sleep(10)  # let everything else settle; then look at what is left
@@ -160,6 +171,16 @@ def run_case(R: Recorder, case: dict[str, Any], verbose: bool = False) -> None:
     if fn["started"]:
         R.monitor("nothing-left-running", fn["finished_at"] is not None, where={**where, "kind": "function-still-running"},
                   detail=f"function started but had not finished 10s after the caller returned: {fn}", case=case)
+    # -- an accepted cancellation request is never swallowed: Task.cancel() returned True (caller still pending), so the
+    #    caller - which catches nothing - must end with CancelledError, whatever else happened at that instant
+    if c is not None and "cancel_accepted" in got:
+        if got["cancel_accepted"]:
+            R.count("cancel_requests_accepted")
+            ok_c = res is not None and res[0] == "raise" and isinstance(res[1], asyncio.CancelledError)
+            R.monitor("cancel-honoured", ok_c, where={**where, "kind": "accepted-cancel-swallowed", "tie": tie, "c_iters": min(case.get("c_iters", 0), 1)},
+                      detail=f"caller.cancel() at +{got.get('cancel_at')} (+{case.get('c_iters', 0)} loop iterations) returned True but the caller ended {res!r} at +{at}; function={fn}", case=case)
+        else:
+            R.count("cancel_requests_too_late")
     if tie or first == "tie":
         R.monitor("outcome", None)
         R.count("ties_unspecified")
@@ -203,6 +224,10 @@ def cases(tier: str):  # noqa: ANN201
     for d, outcome, T, c in itertools.product(DURATIONS, OUTCOMES, TIMEOUTS, CANCELS):
         for scoped in (False, True):
             yield {"d": d, "outcome": outcome, "T": T, "c": c, "scoped": scoped}
+        # cancel requests a few loop iterations after the instant at which the function ends / the deadline fires
+        if c is not None and (c == d or c == T):
+            for k in range(1, 7):
+                yield {"d": d, "outcome": outcome, "T": T, "c": c, "scoped": False, "c_iters": k}
     nested_T = (1.0, 2.5) if tier == "quick" else TIMEOUTS
     for d, outcome, T, c in itertools.product((1.0, 2.0), OUTCOMES, nested_T, (None, 0.5, 1.5) if tier == "quick" else CANCELS):
         for outer in (0.5, 1.5, 3.0):
